@@ -42,6 +42,13 @@ def name_list(rng, enum_class, low=0, high=8):
     for _ in range(pick_len(rng, low, high)):
         if rng.random() < 0.2:
             text = rng.choice(['unknown-algo@example.com', 'x', 'zz-%d' % rng.randrange(1000), 'none@verif', 'a.b-c_d'])
+            if rng.random() < 0.4:
+                # names that differ from a registered one only in letter case, or by a prefix / suffix: RFC 4250 4.6.1 names are
+                # case-sensitive, so these are other, unknown algorithms and go into HASSH as they are on the wire
+                code = rng.choice(members).value.code
+                variant = rng.choice([code.upper(), code.capitalize(), code.swapcase(), code + '@verif', code[:-1], 'x' + code])
+                if variant not in (member.value.code for member in members):
+                    text = variant
             names_lib.append(text)
             names.append(text)
         else:
@@ -136,12 +143,13 @@ def options(rng, critical, valued=True):
     return lib, wire
 
 
-def certificate(rng, valued=False):
-    """valued=True adds the options that carry a value (force-command, source-address)."""
+def certificate(rng, valued=False, subject=None):
+    """valued=True adds the options that carry a value (force-command, source-address); subject=(kind, host_key(..), version)
+    certifies that very key again."""
     key, _, _, _, alg, _, _ = _mods()
-    kind = rng.choice(['rsa', 'dss', 'ecdsa', 'ed25519'])
-    _, _, key_name, fields, public, _ = host_key(rng, kind)
-    version = 'v00' if kind in ('rsa', 'dss') and rng.random() < 0.3 else 'v01'
+    kind = subject[0] if subject else rng.choice(['rsa', 'dss', 'ecdsa', 'ed25519'])
+    _, _, key_name, fields, public, _ = subject[1] if subject else host_key(rng, kind)
+    version = subject[2] if subject else 'v00' if kind in ('rsa', 'dss') and rng.random() < 0.3 else 'v01'
     cert_name = key_name + '-cert-%s@openssh.com' % version
     signer, signer_blob, signer_name, _, _, _ = host_key(rng)
     signature = rbytes(rng, pick_len(rng, 0, 100))
@@ -344,6 +352,14 @@ def x509_chain(rng):
     return Pair('x509-chain', lib, wire)
 
 
+def certificate_renewed(rng):
+    """The same subject key certified twice under the same certificate algorithm (a renewed certificate, or a host and a user
+    certificate of one key): other serial, key id, validity, principals, signature."""
+    kind = rng.choice(['rsa', 'dss', 'ecdsa', 'ed25519'])
+    subject = (kind, host_key(rng, kind), 'v01')
+    return [certificate(rng, False, subject), certificate(rng, False, subject)]
+
+
 def certificate_valued(rng):
     return certificate(rng, True)
 
@@ -354,7 +370,7 @@ def messages_and_records(rng):
 
 
 def generate(rng, count, failures=False):
-    makers = [messages_and_records, banner, host_key_pair, host_key_pair, certificate, certificate, certificate_valued, x509_chain]
+    makers = [messages_and_records, banner, host_key_pair, host_key_pair, certificate, certificate, certificate_valued, x509_chain, certificate_renewed]
     produced = 0
     while produced < count:
         for maker in makers:
